@@ -87,17 +87,17 @@ def main(pid, tier, replay_path=None):
                 if len(labels) < 3:
                     raise vlib.Inconclusive('no counterexample from the deviation config')
                 scs.append(scenario_from_plan('tlc-DevNoCAS', phases_from_labels(labels), 1))
-                _, wd = tlc_run(sc, 'MC_PollManager_Sim.cfg', 'sim', workers=1, extra=['-simulate', 'file=%s,num=%d' % (sc.path('pm_sim', 'b'), 150 if tier == 'quick' else 3000), '-depth', '120', '-seed', str(seed)])
+                _, wd = tlc_run(sc, 'MC_PollManager_Sim.cfg', 'sim', workers=1, extra=['-simulate', 'file=%s,num=%d' % (sc.path('pm_sim', 'b'), 150 if tier == 'quick' else 10000), '-depth', '120', '-seed', str(seed)])
                 for i, f in enumerate(sorted(glob.glob(sc.path('pm_sim', 'b_*')))):
                     labels = re.findall(r'^\\\* <(\w+)(?:\(([^)]*)\))?', open(f).read(), re.M)
                     scs.append(scenario_from_plan('sim-%d-%d' % (seed, i), phases_from_labels(labels), seed * 1000 + i))
                 rnd = random.Random(seed * 13 + 1)
-                for i in range(400 if tier == 'quick' else 10000):
+                for i in range(400 if tier == 'quick' else 40000):
                     nph = rnd.randint(1, 4)
                     scs.append({'id': 'rnd-%d-%d' % (seed, i), 'seed': seed * 100000 + i, 'strategy': rnd.choice(['random', 'pct']), 'pickers': rnd.randint(1, 4), 'picksper': rnd.randint(1, 4),
                                 'phases': [{'numloops': rnd.randint(1, 4), 'lb': rnd.choice(['', '', 'rr', 'random']) if k > 0 else rnd.choice(['', 'random']), 'plan': []} for k in range(nph)]})
                 # free-running: real threads racing the lazy initialisation (windows that have no schedule point in between)
-                for i in range(600 if tier == 'quick' else 20000):
+                for i in range(600 if tier == 'quick' else 60000):
                     scs.append({'id': 'free-%d-%d' % (seed, i), 'seed': seed * 1000 + i, 'strategy': 'free', 'pickers': rnd.choice([2, 3, 4, 6]), 'picksper': rnd.randint(1, 2),
                                 'phases': [{'numloops': rnd.randint(1, 3), 'lb': '', 'plan': []} for k in range(rnd.randint(1, 2))]})
             res, crashed = conn.run_scenarios(sc, binary, scs, 'p', procs=2, test='TestVerifPollManager')
